@@ -5,7 +5,7 @@ import numpy as np
 from hypothesis import strategies as st
 
 from vlib import gens
-from vlib.core import Prop, Sub, Violation, calling, check
+from vlib.core import unchanged, Prop, Sub, Violation, calling, check
 from vlib.oracles import bvls, lp_dist, lp_sum_extreme
 from vlib.systems import proportional_variant, Sys, matrix_system, target_rows
 
@@ -139,7 +139,8 @@ def body_var(case):
             src = np.zeros((sv.n, sv.n + 2))
             src[np.arange(sv.n), np.arange(sv.n) + 1] = 1.0
             est.register_system(src, lb=sv.lb_arg(), ub=sv.ub_arg())
-            X, Bp, Bv = est.minimize_variance(B, l2_eps=l2_eps, L1=L1, l1_eps=l1_eps, **opt)
+            with unchanged("var", estimator=est):
+                X, Bp, Bv = est.minimize_variance(B, l2_eps=l2_eps, L1=L1, l1_eps=l1_eps, **opt)
             if case.get("repeat"):
                 again = est.minimize_variance(B, l2_eps=l2_eps, L1=L1, l1_eps=l1_eps, **opt)
         else:
